@@ -145,8 +145,11 @@ func init() {
 			for _, site := range c.callsTo(pf) {
 				fn := site.Parent()
 				key := fnName(fn) + "/persistFooter"
-				fp := site.Common().Args[0]
-				wArg := site.Common().Args[1]
+				fp := argOfType(site.Common(), "*"+rootPkgPath+".footer")
+				wArg := argOfType(site.Common(), "io.Writer")
+				if fp == nil || wArg == nil {
+					fp, wArg = site.Common().Args[0], site.Common().Args[1]
+				}
 				// (1) dominating store to fp.crc
 				var seed *ssa.Store
 				n := 0
@@ -581,7 +584,11 @@ func init() {
 			var footerW ssa.Value
 			for _, site := range c.callsTo(pf) {
 				if site.Parent() == fn {
-					_, ctors, _ := writerChain(site.Common().Args[1])
+					wa := argOfType(site.Common(), "io.Writer")
+					if wa == nil {
+						wa = site.Common().Args[1]
+					}
+					_, ctors, _ := writerChain(wa)
 					if len(ctors) > 0 {
 						footerW = ctors[0]
 					}
